@@ -62,6 +62,30 @@ func (p *Parser) ExtractImports(file *ast.File) map[string]string {
 	return imports
 }
 
+// ExtractImportsWithInfo is ExtractImports with the names of unaliased imports taken from the type
+// checker: a file refers to such a package by its declared name, which need not be the last element
+// of the import path (e.g. "example.com/lib/v2" declares package lib, "gopkg.in/yaml.v3" declares
+// package yaml). Without type information it falls back to the last path element.
+func (p *Parser) ExtractImportsWithInfo(file *ast.File, info *types.Info) map[string]string {
+	imports := make(map[string]string)
+	for _, imp := range file.Imports {
+		path := strings.Trim(imp.Path.Value, "\"")
+		name := lastPathElement(path)
+		if imp.Name != nil {
+			name = imp.Name.Name
+		} else if info != nil {
+			if pkgName, ok := info.Implicits[imp].(*types.PkgName); ok {
+				name = pkgName.Name()
+			}
+		}
+		// Skip dot imports and blank imports
+		if name != "." && name != "_" {
+			imports[name] = path
+		}
+	}
+	return imports
+}
+
 // ExtractPatterns extracts wire patterns from the file.
 func (p *Parser) ExtractPatterns(file *ast.File, info *types.Info, wireAlias string, filePath string) ([]WirePattern, []Warning) {
 	var patterns []WirePattern
